@@ -114,4 +114,15 @@ PROPS = {
         'level_text': 'Round trip for every u64 varint (with size), zig-zag, fixed-width, every field type on every value of its Rust type, tags with their three rejection classes, and message_roundtrip for the whole schema language (structs and enums over all 18 field types, plain / Option / Vec fields, nested messages, unit / tuple / named variants, Result) are Lean theorems about an executable interpreter of what #[derive(Message)] generates; unknown fields inserted between the fields of a struct are proved not to change the result, non-canonically encoded varint fields are proved to be rejected, decoding is total by construction. The interpreter is tied to the real buffertk / prototk / prototk_derive code by byte-exact comparison of packed bytes, pack_sz and decode results (value or error class) on a family of 17 derived types, on structure-aware mutations of valid encodings, on every prefix of valid encodings and on all byte strings up to length 2 (3 in the thorough tier); an independent protobuf encoder in the harness, a round-trip oracle, an unknown-field oracle and a no-panic oracle evaluate the property directly on the implementation.',
         'level_note': 'Trusted: Lean kernel; axioms propext, Classical.choice, Quot.sound; hand-written model + correspondence on generated cases only; UTF-8 validator and float bit patterns as stated. Wire-type numbers, field-number limits, every field type\'s wire type, the ten-byte varint limit and the Result tags are regenerated from the Rust source each run. Not theorems: fast = slow varint path, message pack_sz (see partial).',
     },
+    'C13': {
+        'trusted': ['CRC-32C re-implemented in Lean (Blue/Model/Crc32c.lean, check value proved); agreement with the crc32c crate is observed on every manifest line of every run, not proved',
+                    'crash images are rebuilt by the harness from the op order of _apply/rollover; that order is compared with the real system calls (strace) on a sample of histories each run',
+                    'file-system model: a completed link/unlink/rename persists; file data persists at fdatasync (model b) or at write (model a)'],
+        'assumptions': ['crash granularity = whole system calls (one edit = one write); a cut at an arbitrary byte is covered by torn_manifest under its NoCollision hypothesis (no proper prefix of a written line carries that line\'s CRC-32C) and by reopening the real code on truncated files',
+                        'strings are what Edit accepts after the D-12/D-24 repair: non-empty ASCII without newline, not ending in CR; info keys ASCII other than newline, + and -',
+                        'single process per directory (the lock file is taken, not modelled)'],
+        'partial': [],
+        'level_text': 'C13 is proved on an executable model and tied to mani by byte-exact correspondence: replay_roundtrip (every manifest the repaired Edit API can write reads back as written, for every checksum; api_enforces_hypothesis shows the hypothesis is exactly what Edit::add/rm/info and to_edit guarantee), torn_manifest (any byte cut reads as a corruption error or a prefix of whole edits), crash_recover/mani_crash_recover (every history of edits and rollovers, every crash point among append/sync/link/unlink/write/sync/rename, both persistence models: reopen = replay of a prefix containing every returned edit), maniAlgebra_lawful (to_edit/apply_edit on sorted sets), chain_crash_free and chain_after_crash_and_reopen (fragments chain after every history and, with open finishing an interrupted rollover, after every crash + reopen). The check runs the real Manifest on seeded histories and compares MANIFEST bytes, every fragment, in-memory and reopened state, verify verdict, every truncation length (all lengths for small files), every crash point under both models, and the strace of real runs against the model op list.',
+        'level_note': 'Trusted: Lean kernel; axioms propext, Classical.choice, Quot.sound; CRC-32C model vs crate agreement is observational; NoCollision hypothesis of torn_manifest cannot be discharged by proof; crash images are harness-built from an op order that is strace-checked on a sample. Defects D-12, D-24 (Edit accepted what the reader cannot read back) and D-13 (crash between link and rename broke the fragment chain) are repaired by fixes/d12-d24-mani-edit-validation.diff and fixes/d13-mani-finish-interrupted-rollover.diff; the as-is behaviour stays as theorems.',
+    },
 }
